@@ -196,9 +196,10 @@ type LetDef struct {
 }
 
 type Clause struct {
-	Label string // optional [label]
-	Expr  *Expr
-	Line  int
+	Label    string // optional [label]
+	Expr     *Expr
+	Line     int
+	Internal bool // `checks`: verified at every return like ensures, but not part of what callers may assume
 }
 
 type ModItem struct {
@@ -315,7 +316,7 @@ func (ps *parser) expectOp(s string) error {
 }
 
 var clauseKW = map[string]bool{"requires": true, "ensures": true, "modifies": true, "invariant": true, "decreases": true,
-	"let": true, "ghost": true, "on": true, "nopanic": true, "pure": true, "trusted": true, "inline": true, "props": true, "attr": true,
+	"let": true, "ghost": true, "on": true, "checks": true, "nopanic": true, "pure": true, "trusted": true, "inline": true, "props": true, "attr": true,
 	"func": true, "macro": true, "ufunc": true, "axiom": true, "sort": true, "lemma": true, "assume": true, "show": true, "hfunc": true, "fntype": true}
 
 // atClauseStart: a clause keyword at beginning of a line ends the previous expression.
@@ -600,9 +601,9 @@ func (ps *parser) parseLemma() (*LemmaDef, error) {
 				return nil, err
 			}
 			if t.text == "assume" {
-				l.Assumes = append(l.Assumes, Clause{lab, e, line})
+				l.Assumes = append(l.Assumes, Clause{Label: lab, Expr: e, Line: line})
 			} else {
-				l.Shows = append(l.Shows, Clause{lab, e, line})
+				l.Shows = append(l.Shows, Clause{Label: lab, Expr: e, Line: line})
 			}
 		default:
 			return nil, ps.errf("unexpected %q in lemma", t.text)
@@ -676,14 +677,14 @@ func (ps *parser) parseContract() (*Contract, error) {
 			k := ps.next().text
 			v := ps.next().text
 			c.Attrs[k] = v
-		case "requires", "ensures":
+		case "requires", "ensures", "checks":
 			lab := ps.parseLabel()
 			line := ps.peek().line
 			e, err := ps.parseExpr()
 			if err != nil {
 				return nil, err
 			}
-			cl := Clause{lab, e, line}
+			cl := Clause{Label: lab, Expr: e, Line: line, Internal: t.text == "checks"}
 			if t.text == "requires" {
 				c.Requires = append(c.Requires, cl)
 			} else {
@@ -709,8 +710,11 @@ func (ps *parser) parseContract() (*Contract, error) {
 				break
 			}
 		case "invariant", "decreases":
-			if !ps.isID("loop") {
-				return nil, ps.errf("expected 'loop' after %s", t.text)
+			retry := false
+			if ps.isID("retry") {
+				retry = true
+			} else if !ps.isID("loop") {
+				return nil, ps.errf("expected 'loop' or 'retry' after %s", t.text)
 			}
 			ps.next()
 			nt := ps.next()
@@ -728,8 +732,11 @@ func (ps *parser) parseContract() (*Contract, error) {
 			if err != nil {
 				return nil, err
 			}
+			if retry {
+				n += 1000 // invariants of the n-th Retry call site share the table with loop invariants
+			}
 			if t.text == "invariant" {
-				c.Invs[n] = append(c.Invs[n], Clause{lab, e, line})
+				c.Invs[n] = append(c.Invs[n], Clause{Label: lab, Expr: e, Line: line})
 			} else {
 				c.Decs[n] = e
 			}
